@@ -100,6 +100,8 @@ func readJournal(path string) (item, inst int, stage string, ok bool) {
 // ---- runner --------------------------------------------------------------------
 
 type runner struct {
+	shard   int
+	nshards int
 	out     *sink
 	jr      *journal
 	scratch string
@@ -129,8 +131,8 @@ func loadCases(path string) []json.RawMessage {
 
 // child: serial child <mode> <cases> <results> <scratch> <journal> <startItem> <startInst> <n>
 func child(args []string) {
-	if len(args) < 8 {
-		vh.Fatal("usage: serial child mode cases results scratch journal startItem startInst n")
+	if len(args) < 10 {
+		vh.Fatal("usage: serial child mode cases results scratch journal startItem startInst n shard nshards")
 	}
 	debug.SetMaxStack(48 << 20) // an unbounded recursion of the library dies quickly
 	mode := args[0]
@@ -142,12 +144,17 @@ func child(args []string) {
 	startItem, _ := strconv.Atoi(args[5])
 	startInst, _ := strconv.Atoi(args[6])
 	n, _ := strconv.Atoi(args[7])
-	r := &runner{out: openSink(args[2]), jr: &journal{jf}, scratch: args[3], mode: mode,
+	shard, _ := strconv.Atoi(args[8])
+	nshards, _ := strconv.Atoi(args[9])
+	r := &runner{shard: shard, nshards: nshards, out: openSink(args[2]), jr: &journal{jf}, scratch: args[3], mode: mode,
 		counts: map[string]int{}, seed: vh.EnvInt("VERIF_SEED", 1)}
 	r.jr.at(startItem, startInst, "idle")
 	switch mode {
 	case "replay":
 		for ci := startItem; ci < len(cases); ci++ {
+			if ci%nshards != shard {
+				continue
+			}
 			var c tcase
 			if e := json.Unmarshal(cases[ci], &c); e != nil {
 				vh.Fatal("bad case", ci, e)
@@ -169,8 +176,41 @@ func child(args []string) {
 	r.out.close()
 }
 
-// parent: runs children until the work is done
+// parent: runs one supervised chain of children per shard until the work is done
 func supervise(mode string, casesPath, results, scratch string, n int) {
+	os.Remove(results)
+	os.MkdirAll(scratch, 0755)
+	nshards := vh.EnvInt("VERIF_SHARDS", 4)
+	if mode == "mutate" {
+		nshards = 1
+	}
+	done := make(chan int, nshards)
+	for sh := 0; sh < nshards; sh++ {
+		go func(sh int) {
+			superviseShard(mode, casesPath, fmt.Sprintf("%s.%d", results, sh), filepath.Join(scratch, fmt.Sprintf("shard%d", sh)), n, sh, nshards)
+			done <- sh
+		}(sh)
+	}
+	for sh := 0; sh < nshards; sh++ {
+		<-done
+	}
+	out, err := os.Create(results)
+	if err != nil {
+		vh.Fatal(err)
+	}
+	defer out.Close()
+	for sh := 0; sh < nshards; sh++ {
+		part := fmt.Sprintf("%s.%d", results, sh)
+		b, err := ioutil.ReadFile(part)
+		if err != nil {
+			vh.Fatal(err)
+		}
+		out.Write(b)
+		os.Remove(part)
+	}
+}
+
+func superviseShard(mode string, casesPath, results, scratch string, n, shard, nshards int) {
 	os.Remove(results)
 	self, err := os.Executable()
 	if err != nil {
@@ -185,7 +225,7 @@ func supervise(mode string, casesPath, results, scratch string, n int) {
 	for {
 		os.Remove(jpath)
 		cmd := exec.Command(self, "child", mode, casesPath, results, scratch, jpath,
-			strconv.Itoa(startItem), strconv.Itoa(startInst), strconv.Itoa(n))
+			strconv.Itoa(startItem), strconv.Itoa(startInst), strconv.Itoa(n), strconv.Itoa(shard), strconv.Itoa(nshards))
 		var stderr bytes.Buffer
 		cmd.Stderr = &limitedWriter{&stderr, 1 << 16}
 		if err := cmd.Start(); err != nil {
